@@ -10,7 +10,7 @@
    new.  The frame condition of an operation is such a statement about the rows
    of the whole tree: every other row is unchanged, in unchanged order. *)
 From Coq Require Import List ZArith Bool Arith Permutation Sorted.
-From NT Require Import Sx Rose Surgery SurgeryFacts Machine MachineFacts Effects FrameTrees.
+From NT Require Import Sx Rose Surgery SurgeryFacts Machine MachineFacts Effects FrameTrees EffectsClones.
 Import ListNotations.
 
 (* ---- where add_child puts the new node ---- *)
@@ -157,6 +157,19 @@ Theorem C04_remove : forall w ti n keep r w',
 Proof. exact remove_effect. Qed.
 Print Assumptions C04_remove.
 
+(* ---- remove() / remove(with_clones=True) against the structural specification [prune V f] = f without
+        every branch whose root is in V (all other nodes keep payload, parent and order): the machine's
+        sequence of path surgeries (which skips clones that went away with an outer clone) is prune of the
+        node resp. of its whole clone group as listed by the index ---- *)
+Theorem C04_remove_with_clones : forall w ti n wc r w',
+  step w (ORemove ti n false wc) = (Ok r, w') ->
+  exists t t' d,
+    get_tree w ti = Some t /\ get_tree w' ti = Some t' /\ did_of n (forest_of t) = Some d /\
+    (NoDup (ids (forest_of t)) ->
+     forest_of t' = prune (if wc then filter (fun c => negb (Nat.eqb c n)) (idx_get d (idx t)) ++ [n] else [n]) (forest_of t)).
+Proof. exact remove_prune. Qed.
+Print Assumptions C04_remove_with_clones.
+
 (* ---- move_to: the branch is cut out (rows A ++ branch ++ B -> A ++ B) and inserted under the
         target at the documented position of the child list AFTER the cut; only the top row of
         the branch changes (its parent); registry and index are untouched ---- *)
@@ -229,6 +242,20 @@ Theorem C04_relabel_frame : forall g group f, NoDup (ids f) -> NoDup group -> in
 Proof. exact relabel_rows. Qed.
 Print Assumptions C04_relabel_frame.
 
+(* ---- del tree[key] removes the one node the key resolves to; rename is set_data on a str node ---- *)
+Theorem C04_del : forall w ti key r w',
+  step w (ODel ti key) = (Ok r, w') ->
+  exists t n, get_tree w ti = Some t /\ getitem t key = Some [n] /\ step w (ORemove ti n false false) = (Ok r, w').
+Proof. exact del_effect. Qed.
+Print Assumptions C04_del.
+
+Theorem C04_rename : forall w ti n d r w',
+  step w (ORename ti n d) = (Ok r, w') ->
+  exists t s, get_tree w ti = Some t /\ get_node n (forest_of t) = Some s /\ i_isstr (rinfo s) = true /\
+              step w (OSetData ti n (Some d) None None) = (Ok r, w').
+Proof. exact rename_effect. Qed.
+Print Assumptions C04_rename.
+
 (* ---- frame across trees, for EVERY operation and EVERY outcome (success, refusal, failing
         callback): only the tree the operation works on can change; existing trees are never
         dropped (ext = no shorter, and equal at every other index) ---- *)
@@ -238,14 +265,27 @@ Theorem C04_frame_other_trees : forall w o,
 Proof. exact step_frame_trees. Qed.
 Print Assumptions C04_frame_other_trees.
 
-(* Not proved as Coq statements (kept as definitions; the correspondence and harness/mut_spec.py
-   decide them on every run):
-   - sort(deep=True): every child list of the branch is the stable sorted permutation of what it was;
-   (set_data on clone groups IS proved: C04_set_data + C04_relabel_frame.) *)
-Definition C04_sort_deep_statement : Prop :=
-  forall k rv t t' failed fuel, sort_deep fuel k rv t false = (t', failed) -> size t < fuel -> failed = false ->
-    Permutation (ids_t t') (ids_t t) /\ rid t' = rid t /\ rinfo t' = rinfo t /\
-    exists ch', rch t' = ch' /\ Permutation (map rid ch') (map rid (rch t)) /\ Sorted (if rv then (fun x y => kle k y x) else kle k) ch'.
+(* ---- sort(deep=True): relational specification [deep_sorted] (no fuel, no failure flag): at every
+        level of the branch the child list is the stable sorted permutation py_sort of what it was ---- *)
+Theorem C04_sort_deep_branch : forall k rv fuel t t',
+  sort_deep fuel k rv t false = (t', false) -> size t < fuel -> deep_sorted k rv t t'.
+Proof. exact sort_deep_spec. Qed.
+Print Assumptions C04_sort_deep_branch.
+
+(* sort / sort_children at the level of step, deep or not: effect on the named child list, frame on
+   all other rows, registry and index untouched *)
+Theorem C04_sort : forall w ti p k rv dp r w',
+  step w (OSort ti p k rv dp) = (Ok r, w') ->
+  exists t t' pq ch ch',
+    get_tree w ti = Some t /\ get_tree w' ti = Some t' /\
+    parent_path p (forest_of t) = Some pq /\ get_ch pq (forest_of t) = Some ch /\
+    get_ch pq (forest_of t') = Some ch' /\
+    (if dp then Forall2 (deep_sorted k rv) (py_sort k rv ch) ch' else ch' = py_sort k rv ch) /\
+    repl_rows (rows p ch) (rows p ch') (rows 0 (forest_of t)) (rows 0 (forest_of t')) /\
+    reg t' = reg t /\ idx t' = idx t /\
+    (forall tj, tj <> ti -> get_tree w' tj = get_tree w tj).
+Proof. exact sort_effect. Qed.
+Print Assumptions C04_sort.
 
 (* non-vacuity: a concrete history on which the hypotheses hold *)
 Definition dA : dat := D 0 0 11 true [97%Z].
@@ -267,3 +307,14 @@ Example C04_sort_nonvacuous :
   map rid (py_sort k false [T 1 dummy_info []; T 2 dummy_info []; T 3 dummy_info []]) = [2; 1; 3] /\
   map rid (py_sort k true [T 1 dummy_info []; T 2 dummy_info []; T 3 dummy_info []]) = [1; 3; 2].
 Proof. split; vm_compute; reflexivity. Qed.
+Example C04_sort_deep_nonvacuous :
+  let k : keyt := [(1, Some [97%Z]); (2, Some [99%Z]); (3, Some [98%Z])] in
+  let t := T 1 dummy_info [T 2 dummy_info []; T 3 dummy_info []] in
+  exists t', sort_deep 5 k false t false = (t', false) /\ map rid (rch t') = [3; 2].
+Proof. eexists. split; vm_compute; reflexivity. Qed.
+Definition w3 : world := run [OAdd 0 2 dA None None BNone; OAdd 0 0 dB None None BNone] w2.   (* a > b > a', b'' : nested clone of a *)
+Example C04_remove_with_clones_nonvacuous :
+  exists r w', step w3 (ORemove 0 3 false true) = (Ok r, w') /\
+               map rid (forest_of (nth 0 (trees w') (TS [] [] [] false None))) = [4] /\
+               map rid (prune [1; 3] (forest_of (nth 0 (trees w3) (TS [] [] [] false None)))) = [4].
+Proof. eexists _, _. repeat split; vm_compute; reflexivity. Qed.
